@@ -100,6 +100,8 @@ def copy_constructors(ctx, kinds):
             v = s.value
             direct = isinstance(v, ast.Attribute) and isinstance(v.value, ast.Name) and v.value.id == src_param
             n += 1
+            if isinstance(v, ast.Constant) and v.value is None:
+                continue  # the "absent" arm of a conditional copy written as statements: nothing is shared
             if not direct:
                 # must be a copying constructor (possibly conditional) over the source's field
                 ok = any(isinstance(c, ast.Call) and call_name(c) in COPYING_CTORS | {"list", "copy"} for c in ast.walk(v))
